@@ -13,6 +13,7 @@
 
 #include "internals.h"
 
+#include <limits.h>
 #include <stdlib.h>
 #include <string.h>
 
@@ -207,19 +208,39 @@ int sbdf_cs_read(FILE* f, sbdf_columnslice** out)
 		goto end;
 	}
 
-	t->prop_cnt = v;
+	if (v < 0)
+	{
+		error = SBDF_ERROR_INVALID_SIZE;
+		goto end;
+	}
+
 	/* TODO Verify that it is OK to have no properties */
 	if (v > 0)
 	{
-		if (error = sbdf_alloc((void**)&t->properties, v * sizeof(void*)))
+		int cap;
+
+		if (v > INT_MAX / (2 * (int)sizeof(void*)))
 		{
+			error = SBDF_ERROR_OUT_OF_MEMORY;
 			goto end;
 		}
 
-		if (error = sbdf_alloc((void**)&t->property_names, v * sizeof(void*)))
+		/* allocate what sbdf_cs_add_property expects for this count */
+		cap = sbdf_calculate_array_capacity(v);
+
+		if (error = sbdf_alloc((void**)&t->properties, cap * sizeof(void*)))
 		{
 			goto end;
 		}
+		memset(t->properties, 0, cap * sizeof(void*));
+
+		if (error = sbdf_alloc((void**)&t->property_names, cap * sizeof(void*)))
+		{
+			goto end;
+		}
+		memset(t->property_names, 0, cap * sizeof(void*));
+
+		t->prop_cnt = v;
 
 		for (i = 0; i < v; ++i)
 		{
